@@ -273,6 +273,7 @@ func (d *Decoder) readTypedList(tag byte) (interface{}, error) {
 		}
 	}
 
+	holder.completed = true
 	return holder, nil
 }
 
@@ -335,5 +336,6 @@ func (d *Decoder) readUntypedList(tag byte) (interface{}, error) {
 		}
 	}
 
+	holder.completed = true
 	return holder, nil
 }
